@@ -98,8 +98,10 @@ def Rng.ok : Rng → Int → Prop
 
 /-- a list behind a signed `w`-byte count -/
 def encList (w : Nat) (enc : α → Bytes) (xs : List α) : Bytes := encI w xs.length ++ encMany enc xs
+/-- `count := int(in.ReadInt3()); for i := 0; i < count; i++ { add(read) }` — a negative count runs the
+    loop zero times: an empty list (util/list *List.Read) -/
 def decList (w : Nat) (dec : P α) : P (List α) :=
-  P.bind (rdI w) (fun n => if n < 0 then .fail else decMany dec n.toNat)
+  P.bind (rdI w) (fun n => decMany dec n.toNat)
 
 def encAnyList : Val → Bytes
   | .ints (1 :: xs) => 1 :: encList 3 encDecimal xs
